@@ -99,7 +99,10 @@ MateChecks(r, ln, doMate1) ==
       v1 == (IF final = "false" THEN <<V(ln, "C08", "false_mate_announcement", r.fen, [y |-> y, pv |-> li.pv, depth |-> li.depth, go |-> r.lim.go, tt |-> r.lim.tt,
                                                                                       decided_by |-> IF verdict = "false" THEN "MateOracle.tla" ELSE "harness solver (beyond the TLC bound)"])>> ELSE <<>>)
             \o (IF disagree THEN <<V(ln, "X", "solver_disagrees_with_specification", r.fen, [y |-> y, spec |-> verdict, solver |-> sv])>> ELSE <<>>)
+      \* (a search restricted by searchmoves to moves none of which mates cannot deliver the mate: C09 binds it to its list)
       m1 == doMate1 /\ HasMateIn1(r.root, r.legal)
+            /\ (r.lim.searchmoves = <<>> \/ \E i \in 1..Len(r.lim.searchmoves) :
+                    WellFormedUci(r.lim.searchmoves[i]) /\ ParseUci(r.lim.searchmoves[i]) \in r.legal /\ IsMate(Apply(r.root, ParseUci(r.lim.searchmoves[i]))))
       v2 == IF m1 /\ Len(r.best) = 1 /\ WellFormedUci(r.best[1]) /\ ParseUci(r.best[1]) \in r.legal /\ ~IsMate(Apply(r.root, ParseUci(r.best[1])))
             THEN <<V(ln, "C08", "mate_in_one_not_played", r.fen, [bestmove |-> r.best[1], go |-> r.lim.go, tt |-> r.lim.tt])>> ELSE <<>>
   IN [viol |-> v1 \o v2, bumps |-> (IF hasClaim THEN {"mate_claims"} ELSE {}) \cup (IF final = "true" THEN {"mate_true"} ELSE {})
